@@ -52,7 +52,7 @@ def cases(tier, seed):
     for k in (1, 2, 3, 4):
         for assign in assignments(k, tier):
             for shp in shapes[k]:
-                for nanp in ("none", "point", "slice", "coord"):
+                for nanp in ("none", "point", "slice", "coord", "zero"):
                     if nanp == "coord" and shp[0] == 1:
                         continue  # (would leave a dataset without any data)
                     j += 1
@@ -135,6 +135,9 @@ def make_ds(shape, ctypes, nanp, nan_dim=0):
         y[(0,) * k + (1,)] = np.nan
     elif nanp == "slice":
         y[(0,) * k] = np.nan
+    elif nanp == "zero":
+        # one slice whose values are all exactly zero (it has data)
+        y[(0,) * k] = 0.0
     elif nanp == "coord":
         sl = [slice(None)] * (k + 1)
         sl[nan_dim] = 0
@@ -279,7 +282,10 @@ def check_lines(case):
                 vio.append((key("empty-line"), "an all-NaN line was drawn"))
                 continue
             ix0 = int(np.nonzero(np.isfinite(yd))[0][0])
-            _, idx = decode(fin_[0], k)
+            if case["nan"] == "zero" and not np.any(fin_):
+                idx = (0,) * k  # (the all-zero slice)
+            else:
+                _, idx = decode(fin_[0], k)
             if idx in seen:
                 vio.append((key("drawn-twice"), "slice %r drawn more than once"
                             % (idx,)))
